@@ -19,6 +19,10 @@ package consensus
 // timeouts fire only when nothing else moves; then TestVerifC01's standard end-of-case checks run
 // (trace to the verified Lean checker, committed blocks compared across the correct nodes).
 //
+// vfDirS6 (stale lock after a double round skip) is a LIVENESS scenario: it is not among the
+// kinds TestVerifC01 draws (vfDirKinds) but is the directed prefix of the C04 liveness search
+// (c04_test.go, via vfDirPlay); VERIF_DIR=S6 runs it here with a heal of 45 rounds.
+//
 // Replay of one case: the violation text names `seed=<shard seed> case=<c>`; run the harness
 // binary with VERIF_SEED=<shard seed> VERIF_ONLY=<c> VERIF_DEBUG=1 (prints every round, the
 // milestones and each node's height/round/step/lock/valid block). VERIF_DIR=S1..S5 forces that
@@ -115,26 +119,29 @@ func vfDirConfig(r *vfRand) (int, []int64) {
 // differ lists pairs of critical rounds whose proposers must be different validators unless the
 // later one is faulty (an honest proposer without a valid block would make the same block again).
 type vfDirSpec struct {
-	crit   []string
-	maxGap []int
-	differ [][2]int
+	crit    []string
+	maxGap  []int
+	differ  [][2]int
+	powerOK func(d *vfDir) bool // nil: every group below one third
 }
 
 type vfDir struct {
-	net     *vfNet
-	o       *vfOut
-	r       *vfRand
-	kind    string
-	tag     string // "seed=<shard seed> case=<c>" for violation texts
-	h       uint64
-	chainID string
-	role    map[int]byte // validator index -> 'A', 'C', 'D' (correct) or 'Z' (faulty)
-	prop    []int        // prop[r] = validator index proposing round r at height h (prop[0] unused)
-	rounds  []uint32     // the critical rounds chosen by the planner
-	tot     int64
-	junk    types.BlockID // a block id nobody will ever propose (noise votes of Z)
-	dbg     bool
-	derail  string // first reason why the script left its intended path ("" = on track)
+	net       *vfNet
+	o         *vfOut
+	r         *vfRand
+	kind      string
+	tag       string // "seed=<shard seed> case=<c>" for violation texts
+	h         uint64
+	chainID   string
+	role      map[int]byte // validator index -> 'A', 'C', 'D' (correct) or 'Z' (faulty)
+	prop      []int        // prop[r] = validator index proposing round r at height h (prop[0] unused)
+	rounds    []uint32     // the critical rounds chosen by the planner
+	tot       int64
+	junk      types.BlockID // a block id nobody will ever propose (noise votes of Z)
+	dbg       bool
+	derail    string // first reason why the script left its intended path ("" = on track)
+	preFailed bool   // the synchronous pre-height was not decided (never seen)
+	cutoff    string // roles that are partitioned away: the stages deliver nothing to or from them
 }
 
 func (d *vfDir) logf(format string, a ...interface{}) {
@@ -206,9 +213,13 @@ func (d *vfDir) plan(spec vfDirSpec) bool {
 		}
 		d.role = role
 		ok := true
-		for _, g := range []string{"A", "C", "D", "Z"} {
-			if 3*d.power(g) >= d.tot {
-				ok = false
+		if spec.powerOK != nil {
+			ok = spec.powerOK(d)
+		} else {
+			for _, g := range []string{"A", "C", "D", "Z"} {
+				if 3*d.power(g) >= d.tot {
+					ok = false
+				}
 			}
 		}
 		if !ok {
@@ -332,6 +343,9 @@ func (d *vfDir) showK(kind string, rd uint32, to, from string, key string) int {
 				return false
 			}
 		} else if c.kind != kind {
+			return false
+		}
+		if d.cutoff != "" && (d.is(net.nodes[p.to].idx, d.cutoff) || d.is(p.from, d.cutoff)) {
 			return false
 		}
 		return d.is(net.nodes[p.to].idx, to) && d.is(p.from, from)
@@ -592,6 +606,9 @@ func (d *vfDir) noise(rd uint32) {
 				if p.to != pos || c.height != d.h || c.round != rd || c.kind != "prevote" {
 					return false
 				}
+				if d.cutoff != "" && (d.is(n.idx, d.cutoff) || d.is(p.from, d.cutoff)) {
+					return false
+				}
 				if (pass == 0) != (d.role[p.from] == 'Z') {
 					return false
 				}
@@ -677,6 +694,49 @@ func (d *vfDir) heal(goal uint64, maxIter int) bool {
 		}
 	}
 	return false
+}
+
+// healRounds: as heal, but bounded by ROUNDS: runs until every correct node stored height goal
+// or the slowest correct node still at that height has gone through `rounds` further rounds.
+// Returns whether all decided and how many rounds the most advanced undecided node went through.
+func (d *vfDir) healRounds(goal uint64, rounds int) (bool, int) {
+	net := d.net
+	net.parts = nil
+	start := map[int]uint32{}
+	for _, n := range net.nodes {
+		start[n.idx] = n.cs.Round
+	}
+	ran := 0
+	for it := 0; it < 8*rounds+40; it++ {
+		d.fixpoint()
+		done := true
+		minRan := 1 << 30
+		for _, n := range net.nodes {
+			if n.bo.Height() < goal {
+				done = false
+				k := int(n.cs.Round) - int(start[n.idx])
+				if k > ran {
+					ran = k
+				}
+				if k < minRan {
+					minRan = k
+				}
+			}
+		}
+		if done {
+			return true, ran
+		}
+		if minRan >= rounds {
+			return false, ran
+		}
+		for _, n := range net.nodes {
+			if n.bo.Height() < goal {
+				net.fireTimeout(n, true)
+				net.drain()
+			}
+		}
+	}
+	return false, ran
 }
 
 // ---- building blocks shared by the scenarios
@@ -1276,6 +1336,148 @@ func vfDirS4(d *vfDir) {
 	}
 }
 
+// vfDirS6 - stale lock after a double round skip (candidate liveness defect).
+// r1: block X is proposed and prevoted by A, C and D; ONLY A sees the polka (variant 0: Z prevotes
+// nil in public, A is shown the prevotes of A, C, D, the others those of C, D, Z; variant 1: D does
+// not receive the proposal and Z shows its prevote for X to A only): A locks X@r1 and precommits
+// it, C and D precommit nil. From now on A is cut off (nothing to or from A is delivered).
+// r2: Y is proposed (by C, D or Z) and prevoted by C, D, Z: C and D lock Y@r2 and precommit it, Z
+// precommits nil: no decision (C+D <= 2/3). r3: C and D prevote Y again (their lock), Z nil.
+// Then A reconnects and the network hands it, in this order and before A's propose timeout of
+// r2 fires, the r2 prevotes of C, D, Z (a polka for Y: A is still in round r1, so addVote's unlock
+// test `LockedRound < vote.Round <= cs.Round` is false; +2/3-any: A skips to r2) and the r3 prevotes
+// of C, D, Z (+2/3-any: A skips to r3) - A never prevoted or precommitted in r2. A now HOLDS the
+// polka (r2, Y) but stays locked on (X, r1). Nothing else is scripted: the caller's synchronous
+// heal / suffix decides whether the network (A + C + D > 2/3, Z silent) ever commits.
+func vfDirS6(d *vfDir, variant int) {
+	r1, r2, r3 := d.rounds[0], d.rounds[1], d.rounds[2]
+	null := types.BlockID{}
+	d.o.Stat(fmt.Sprintf("dir.S6.variant-%d", variant))
+	d.noiseUntil(1, r1)
+	// r1: A locks X alone
+	d.begin(r1)
+	toProp := "ACD"
+	if variant == 1 {
+		toProp = "AC"
+	}
+	if z := d.prop[r1]; d.role[z] == 'Z' {
+		b := d.mkBlock(z, 0)
+		if b == nil {
+			d.reached("byz-block", false)
+			return
+		}
+		d.byzPropose(z, r1, 0, b)
+	}
+	d.proposal(r1, toProp, "ACD")
+	keyX := d.sent(d.first("A"), vfPv, r1)
+	if variant == 1 {
+		if !d.reached("r1-prevotes", vfRealKey(keyX) && d.allSent("AC", vfPv, r1, keyX) && d.allSent("D", vfPv, r1, "")) {
+			return
+		}
+		d.byzVote(vfPv, r1, d.idOf(keyX))
+		d.prevotes(r1, vfVis{'A': "ACDZ", 'C': "ACD", 'D': "ACD"})
+	} else {
+		if !d.reached("r1-prevotes", vfRealKey(keyX) && d.allSent("ACD", vfPv, r1, keyX)) {
+			return
+		}
+		d.byzVote(vfPv, r1, null)
+		d.prevotes(r1, vfVis{'A': "ACD", 'C': "CDZ", 'D': "CDZ"})
+	}
+	if !d.reached("A-locked-r1", d.lockedOn("A", keyX) && d.allSent("A", vfPc, r1, keyX) && d.allSent("CD", vfPc, r1, "") && !d.lockedOn("C", keyX) && !d.lockedOn("D", keyX)) {
+		return
+	}
+	d.cutoff = "A"
+	d.byzVote(vfPc, r1, null)
+	d.precommits(r1, vfVisAll) // (A is cut off: C and D see the nil precommits of C, D, Z)
+	d.noiseUntil(r1+1, r2)
+	// r2: C and D lock Y
+	d.begin(r2)
+	if z := d.prop[r2]; d.role[z] == 'Z' {
+		b := d.mkBlock(z, 2)
+		if b == nil {
+			d.reached("byz-block", false)
+			return
+		}
+		d.byzPropose(z, r2, 0, b)
+	}
+	d.proposal(r2, "CD", "CD")
+	keyY := d.sent(d.first("C"), vfPv, r2)
+	if !d.reached("r2-prevotes", vfRealKey(keyY) && keyY != keyX && d.allSent("CD", vfPv, r2, keyY)) {
+		return
+	}
+	// only as many faulty validators vote as the polka needs: with the last of these votes the
+	// polka is EXACTLY complete, so that no further round-r2 prevote exists that could be added
+	// to A's vote set later (any late r2 prevote arriving after the skip would run addVote's
+	// unlock test again - and release the lock)
+	var zMin []int
+	sum := d.power("CD")
+	for _, z := range d.group("Z") {
+		if 3*sum > 2*d.tot {
+			break
+		}
+		zMin = append(zMin, z)
+		sum += d.net.powers[z]
+	}
+	d.byzVoteFrom(zMin, vfPv, r2, d.idOf(keyY))
+	d.prevotes(r2, vfVisAll)
+	lr := true
+	for _, i := range d.group("CD") {
+		if d.net.nodeOf[i].cs.LockedRound != r2 {
+			lr = false
+		}
+	}
+	if !d.reached("B-C-locked-r2", lr && d.lockedOn("C", keyY) && d.lockedOn("D", keyY) && d.allSent("CD", vfPc, r2, keyY)) {
+		return
+	}
+	d.byzVoteFrom(zMin, vfPc, r2, null)
+	d.precommits(r2, vfVisAll)
+	if !d.reached("no-decision-in-r2", !d.committedAny("ACD")) {
+		return
+	}
+	d.noiseUntil(r2+1, r3)
+	// r3: C and D prevote their lock again
+	d.begin(r3)
+	d.proposal(r3, "CD", "CD")
+	d.byzVoteFrom(zMin, vfPv, r3, null)
+	if !d.reached("r3-prevotes", d.allSent("CD", vfPv, r3, keyY)) {
+		return
+	}
+	// A reconnects: still in r1, locked on X, it has received nothing since its own precommit
+	a0 := d.net.nodeOf[d.first("A")]
+	if !d.reached("A-still-in-r1-locked", a0.cs.Round == r1 && d.lockedOn("A", keyX)) {
+		return
+	}
+	d.cutoff = ""
+	d.showK("prevote", r2, "A", "CD", keyY) // the correct validators' prevotes first (no quorum yet),
+	d.showK("prevote", r2, "A", "Z", keyY)  // then the faulty ones': the last one completes polka and skip
+	skip1 := true
+	for _, i := range d.group("A") {
+		if n := d.net.nodeOf[i]; n.cs.Round != r2 || n.cs.Step > cstypes.RoundStepPropose {
+			skip1 = false
+		}
+	}
+	d.reached("A-skipped-to-r2", skip1 && d.lockedOn("A", keyX))
+	d.show("prevote", r3, "A", "CDZ")
+	skip2 := true
+	for _, i := range d.group("A") {
+		if n := d.net.nodeOf[i]; n.cs.Round != r3 || d.sent(i, vfPv, r2) != "?" || d.sent(i, vfPc, r2) != "?" {
+			skip2 = false
+		}
+	}
+	if !d.reached("A-double-skip-without-round2-prevote", skip1 && skip2) {
+		return
+	}
+	holds := true
+	for _, i := range d.group("A") {
+		n := d.net.nodeOf[i]
+		id, ok := n.cs.Votes.Prevotes(r2).TwoThirdsMajority()
+		if !ok || vfBlockKey(id) != keyY || n.cs.LockedRound != r1 {
+			holds = false
+		}
+	}
+	d.reached("A-holds-polka-r2-but-locked", holds && d.lockedOn("A", keyX))
+}
+
 // ---- the driver
 
 var vfDirKinds = []string{"S1", "S2", "S3", "S4", "S5"}
@@ -1303,6 +1505,21 @@ func vfDirSpecFor(kind string, variant int) vfDirSpec {
 		}
 		return vfDirSpec{crit: []string{"ACZ", "CDZ", "DZ"}, maxGap: []int{2, 3, 3}, differ: [][2]int{{0, 1}}}
 	}
+	if kind == "S6" {
+		// A and Z below one third, C and D together at most two thirds (C+D must neither see a
+		// polka among themselves in r1 nor commit alone in r2)
+		pw := func(d *vfDir) bool {
+			if variant == 1 && (3*d.power("C") >= d.tot || 3*d.power("D") >= d.tot) {
+				return false
+			}
+			return len(d.group("C")) > 0 && len(d.group("D")) > 0 && 3*d.power("A") < d.tot && 3*d.power("Z") < d.tot && 3*d.power("CD") <= 2*d.tot
+		}
+		r1 := "ACDZ"
+		if variant == 1 {
+			r1 = "ACZ"
+		}
+		return vfDirSpec{crit: []string{r1, "CDZ", "CDZ"}, maxGap: []int{2, 1, 1}, differ: [][2]int{{0, 1}}, powerOK: pw}
+	}
 	return vfDirSpec{crit: []string{"ACDZ"}, maxGap: []int{2}}
 }
 
@@ -1313,14 +1530,39 @@ func vfDirSpecFor(kind string, variant int) vfDirSpec {
 // of group Z become the adversary's. Returns the network, a description and whether the healed
 // network decided within the bound.
 func vfRunDirected(o *vfOut, r *vfRand, kind string, tag string) (net *vfNet, desc string, healed bool, err error) {
+	d, desc, err := vfDirPlay(o, r, kind, tag)
+	if err != nil || d == nil {
+		return nil, desc, false, err
+	}
+	if d.preFailed {
+		return d.net, desc, false, nil
+	}
+	d.logf("before heal: %s", d.state())
+	n := len(d.net.keys)
+	if d.kind == "S6" {
+		// generous bound: at least 45 further rounds (three timeouts per round and node at most)
+		var rounds int
+		healed, rounds = d.healRounds(d.h, 45)
+		o.Stat(fmt.Sprintf("dir.S6.heal-rounds<=%d", (rounds/10+1)*10))
+		desc += fmt.Sprintf(" heal-rounds=%d decided=%v", rounds, healed)
+	} else {
+		healed = d.heal(d.h+uint64(r.Pick(0, 0, 1)), 40*n+60)
+	}
+	d.logf("after heal (%v): %s", healed, d.state())
+	return d.net, desc, healed, nil
+}
+
+// vfDirPlay: everything of vfRunDirected up to (excluding) the heal; also used by the C04 harness,
+// which runs its own synchronous suffix afterwards.
+func vfDirPlay(o *vfOut, r *vfRand, kind string, tag string) (d *vfDir, desc string, err error) {
 	n, stake := vfDirConfig(r)
 	byz := map[int]bool{}
-	net, err = vfNewNet(r, vfKeys(r, n), stake, byz)
+	net, err := vfNewNet(r, vfKeys(r, n), stake, byz)
 	if err != nil {
-		return nil, "", false, err
+		return nil, "", err
 	}
 	net.dropPct, net.dupPct = 0, 0
-	d := &vfDir{net: net, o: o, r: r, kind: kind, tag: tag, dbg: vfEnvInt("VERIF_DEBUG", 0) > 0}
+	d = &vfDir{net: net, o: o, r: r, kind: kind, tag: tag, dbg: vfEnvInt("VERIF_DEBUG", 0) > 0}
 	for _, p := range net.powers {
 		d.tot += p
 	}
@@ -1330,7 +1572,8 @@ func vfRunDirected(o *vfOut, r *vfRand, kind string, tag string) (net *vfNet, de
 		// a synchronous height with every validator behaving correctly
 		d.role = map[int]byte{}
 		if !d.heal(uint64(pre), 60) {
-			return net, tag + " kind=" + kind + " pre-height not decided", false, nil
+			d.preFailed = true
+			return d, tag + " kind=" + kind + " pre-height not decided", nil
 		}
 	}
 	d.h = net.nodes[0].cs.Height
@@ -1348,13 +1591,16 @@ func vfRunDirected(o *vfOut, r *vfRand, kind string, tag string) (net *vfNet, de
 	case "S3":
 		variant = r.Intn(3)
 	}
+	if kind == "S6" {
+		variant = r.Intn(2)
+	}
 	planned := vfDirFeasible(net.powers) && d.plan(vfDirSpecFor(kind, variant))
 	if planned && kind == "S2" && variant == 3 && 3*d.power("CD") > 2*d.tot {
 		// C and D alone would show A a nil polka: use the block variant
 		variant = 2
 		planned = d.plan(vfDirSpecFor(kind, variant))
 	}
-	if !planned && kind != "S4" {
+	if !planned && kind != "S4" && kind != "S6" {
 		o.Stat("dir." + kind + ".plan-failed")
 		kind = "S4"
 		d.kind = kind
@@ -1396,6 +1642,8 @@ func vfRunDirected(o *vfOut, r *vfRand, kind string, tag string) (net *vfNet, de
 			vfDirS2(d, variant)
 		case "S3":
 			vfDirS3(d, variant)
+		case "S6":
+			vfDirS6(d, variant)
 		default:
 			vfDirS4(d)
 		}
@@ -1406,8 +1654,5 @@ func vfRunDirected(o *vfOut, r *vfRand, kind string, tag string) (net *vfNet, de
 			desc += " derailed-at=" + d.derail
 		}
 	}
-	d.logf("before heal: %s", d.state())
-	healed = d.heal(d.h+uint64(r.Pick(0, 0, 1)), 40*n+60)
-	d.logf("after heal (%v): %s", healed, d.state())
-	return net, desc, healed, nil
+	return d, desc, nil
 }
